@@ -909,24 +909,89 @@ Section Complete.
     forall p h cb b n cl cp ch, RN p h cb -> has h db0 = true -> T h = Some b ->
       decode_node b = DOk n -> child_list p n = Some cl -> In (cp, NHash ch) cl -> has ch db0 = true.
 
+  Lemma Inv_initial s :
+    closed0 -> sc_path s = false -> sc_db s = db0 -> mb_nodes s = [] -> creqs s = [] ->
+    (forall k r, In (k, r) (nreqs s) ->
+       nr_data r = None /\ nr_parent r = None /\ nr_deps r = 0%Z /\ RN k (nr_hash r) (nr_cb r)) ->
+    (root = empty_root H \/ availn s root \/ exists r, aget [] (nreqs s) = Some r /\ nr_hash r = root) ->
+    Inv s.
+  Proof.
+    intros C0 S0 E1 E2 E3 Hreq RT.
+    assert (Hr : forall k r, aget k (nreqs s) = Some r ->
+       nr_data r = None /\ nr_parent r = None /\ nr_deps r = 0%Z /\ RN k (nr_hash r) (nr_cb r)).
+    { intros k r E. apply Hreq. apply aget_In. exact E. }
+    split; [|split].
+    - constructor; auto.
+      + intros p r b E D. destruct (Hr _ _ E) as (X & _). congruence.
+      + intros o p b h Hin. rewrite E2 in Hin. destruct Hin.
+      + intros p r E _. destruct (Hr _ _ E) as (_ & _ & X & _). lia.
+      + intros k rc q Hin Hq. destruct (Hreq _ _ Hin) as (_ & X & _). congruence.
+      + intros h c q Hin. rewrite E3 in Hin. destruct Hin.
+      + intros q _ r b n cl E D. destruct (Hr _ _ E) as (X & _). congruence.
+      + intros p h cb b n cl R A Th D Cl cp cn Hin. destruct cn; simpl; auto.
+        * intros Hcb. apply RN_none in R. congruence.
+        * left. rewrite E1. eapply C0; eauto.
+          destruct A as [A|(o & q & b0 & X & _)]; [rewrite <- E1; exact A|rewrite E2 in X; destruct X].
+    - intros q rq E. destruct (Hr _ _ E) as (_ & _ & X & _). rewrite X, E3.
+      rewrite cntn_zero_of; [simpl; unfold zero; lia|].
+      intros k rc Hin. destruct (Hreq _ _ Hin) as (_ & Y & _). congruence.
+    - intros q rq E. destruct (Hr _ _ E) as (X & _ & _ & R). split; [exact R|]. intros b Y. congruence.
+  Qed.
+
   Lemma Inv_new_sync : closed0 -> Inv (unsum (new_sync H false db0 root cb0)).
   Proof.
     intros C0. unfold new_sync, add_sub_trie.
-    set (e := mkSync false db0 [] [] 0 [] [] [] []).
-    assert (AV : forall s, sc_db s = db0 -> mb_nodes s = [] -> forall h, availn s h -> has h db0 = true).
-    { intros s E1 E2 h [A|(o & p & b & [] & _)]. rewrite <- E1. exact A. }
-    assert (CC : forall s, sc_db s = db0 -> mb_nodes s = [] ->
-      forall p h cb b n cl, RN p h cb -> availn s h -> T h = Some b -> decode_node b = DOk n ->
-      child_list p n = Some cl -> forall cp cn, In (cp, cn) cl -> kid_avail s cb cn).
-    { intros s E1 E2 p h cb b n cl R A Th D Cl cp cn Hin. destruct cn; simpl; auto.
-      - intros Hcb. apply RN_none in R. congruence.
-      - left. rewrite E1. eapply C0; eauto. }
-    assert (Ie : invE None e /\ slack e zero /\ reqT e).
-    { split; [|split; [intros q rq X; discriminate X|intros q rq X; discriminate X]].
-      constructor; unfold e; ssimpl; auto; try (intros; discriminate); try (intros ? ? ? []); try (intros ? ? ? ? []).
-      - intros q _ r b n cl X. discriminate X.
-      - apply (CC e); reflexivity.
-      - destruct (beq root (empty_root H)) eqn:Er; [left; apply beq_eq; exact Er|].
-        right. admit_rt. }
-  Abort.
+    destruct (beq root (empty_root H)) eqn:Er.
+    { apply beq_eq in Er. apply Inv_initial; auto. intros k r []. }
+    assert (Hne : root <> empty_root H) by (intros X; rewrite X, beq_refl in Er; discriminate).
+    change (resolve_path []) with (Some (zero32, @nil N)). cbv iota beta.
+    unfold has_node; ssimpl.
+    destruct (has root db0) eqn:Eh.
+    { apply Inv_initial; auto; [intros k r []|]. right. left. left. exact Eh. }
+    ssimpl. simpl aget. cbv iota.
+    assert (Ez : negb (beq zero32 zero32) = false) by (rewrite beq_refl; reflexivity).
+    rewrite Ez. simpl unsum. unfold schedule_node.
+    apply Inv_initial; ssimpl; auto.
+    - intros k r [X|[]]. inversion X; subst. simpl. repeat split; auto. apply RN_root. exact Hne.
+    - right. right. eexists. split; [reflexivity|reflexivity].
+  Qed.
 End Complete.
+
+Section Final.
+  Variable H : list N -> list N.
+  Variable T CD : list N -> option (list N).
+  Variable root : list N.
+  Variable db0 : kv.
+
+  Lemma sound_run2 : forall ops s,
+    run2_wf H T s ops -> sound H T CD root CbNone db0 s -> sound H T CD root CbNone db0 (run2 H s ops).
+  Proof.
+    induction ops as [|o r IH]; intros s W Hs; simpl; [exact Hs|].
+    destruct W as [W1 W2]. apply IH; [exact W2|]. destruct o as [k|p h b]; simpl.
+    - pose proof (sound_missing H T CD root CbNone db0 s k Hs) as X.
+      destruct (missing s k) as [[s1 ns] cs]. apply X.
+    - simpl in W1. destruct W1 as (W & _). unfold deliver_node.
+      destruct (beq (H b) h) eqn:E; [|exact Hs]. apply beq_eq in E.
+      apply sound_process_node; [|exact Hs]. intros r0 Hr. destruct (W r0 Hr) as [-> Ht]. auto.
+  Qed.
+
+  (* hash scheme, sync without leaf callback: deliveries in any order, with duplicates,
+     corrupted blobs and Missing calls interleaved; when no request is pending, Commit
+     leaves every node of the target in the store *)
+  Theorem sync_complete_nocallback ops s' :
+    closed0 H T root CbNone db0 ->
+    let s0 := unsum (new_sync H false db0 root CbNone) in
+    run2_wf H T s0 ops ->
+    nreqs (run2 H s0 ops) = [] -> commit (run2 H s0 ops) = Some s' ->
+    forall p h cb, RN H T root CbNone p h cb -> has h (sc_db s') = true.
+  Proof.
+    intros C0 s0 W En Ec.
+    assert (HK : forall p h cb p' cb', RN H T root CbNone p h cb -> RN H T root CbNone p' h cb' -> cb = cb').
+    { intros p h cb p' cb' R1 R2. apply (RN_none H T root CbNone eq_refl) in R1.
+      apply (RN_none H T root CbNone eq_refl) in R2. congruence. }
+    pose proof (Inv_new_sync H T CD root CbNone db0 HK eq_refl C0) as I0.
+    pose proof (Inv_run2 H T CD root CbNone HK eq_refl ops _ W I0) as (I & _ & _).
+    pose proof (sound_run2 ops _ W (sound_new_sync H T CD root CbNone db0)) as SO.
+    eapply (complete_final H T CD root CbNone db0 HK eq_refl); eauto.
+  Qed.
+End Final.
